@@ -642,8 +642,26 @@ func (c *Client) write(quit <-chan struct{}, p []byte) error {
 	if err != nil {
 		return err
 	}
+	return c.writeLocked(conn, p)
+}
 
-	err = writeTo(conn, p, c.PauseTimeout)
+// WriteAck is the write of the read routine. The read routine does the
+// (re)connects itself. Awaiting one, like lockWrite does, would be for ever.
+func (c *Client) writeAck(p []byte) error {
+	conn, ok := <-c.writeSem // lock
+	switch {
+	case !ok:
+		return ErrClosed
+	case conn == connPending || conn == connDown:
+		c.writeSem <- conn // unlock
+		return ErrDown     // connection lost by a write in the mean time
+	}
+	return c.writeLocked(conn, p)
+}
+
+// WriteLocked submits the packet with the write lock held.
+func (c *Client) writeLocked(conn net.Conn, p []byte) error {
+	err := writeTo(conn, p, c.PauseTimeout)
 	if err != nil {
 		if !nonNilIsAny(err, connClosedErrors) {
 			conn.Close() // signal read routine
@@ -1212,7 +1230,7 @@ func (c *Client) readSlices() (message, topic []byte, err error) {
 				return nil, nil, err
 			}
 		}
-		err := c.write(nil, c.pendingAck)
+		err := c.writeAck(c.pendingAck)
 		if err != nil {
 			c.toOffline()
 			return nil, nil, err // keeps pendingAck to retry
@@ -1408,7 +1426,7 @@ func (c *Client) onPUBLISH(head byte) (message, topic []byte, err error) {
 				return nil, nil, fmt.Errorf("mqtt: internal error: ack %#x pending during PUBLISH exactly once duplicate", c.pendingAck)
 			}
 			c.pendingAck = append(c.pendingAck, typePUBREC<<4, 2, byte(packetID>>8), byte(packetID))
-			err = c.write(nil, c.pendingAck)
+			err = c.writeAck(c.pendingAck)
 			if err != nil {
 				return nil, nil, err // causes resubmission of PUBREC
 			}
@@ -1448,7 +1466,7 @@ func (c *Client) onPUBREL() error {
 		return fmt.Errorf("mqtt: internal error: ack %#x pending during PUBREL reception", c.pendingAck)
 	}
 	c.pendingAck = append(c.pendingAck, typePUBCOMP<<4, 2, byte(packetID>>8), byte(packetID))
-	err = c.write(nil, c.pendingAck)
+	err = c.writeAck(c.pendingAck)
 	if err != nil {
 		return err // causes resubmission of PUBCOMP
 	}
